@@ -130,8 +130,8 @@ pub fn mutate(rng: &mut Rng, src: &[u8]) -> (Vec<u8>, String) {
             if rng.chance(1, 4) {
                 // the signature header's SIZE tag (header + payload length) understated / overstated
                 if let Some(e) = l.sig.find(1000) {
-                    let p = l.sig.store_at + e.offset as usize;
-                    if p + 4 <= b.len() && e.typ == 4 {
+                    let p = if e.offset >= 0 { l.sig.store_at.saturating_add(e.offset as usize) } else { usize::MAX - 8 };
+                    if p.saturating_add(4) <= b.len() && e.typ == 4 {
                         let cur = u32::from_be_bytes([b[p], b[p + 1], b[p + 2], b[p + 3]]);
                         let newv = *rng.pick(&[cur / 2, cur.saturating_sub(1), cur.wrapping_add(1), 0, l.hdr.len() as u32, u32::MAX]);
                         b[p..p + 4].copy_from_slice(&newv.to_be_bytes());
